@@ -242,6 +242,36 @@ fn c14_extension_fields() {
     finish("c14_extension_fields", cases, bad);
 }
 
+// C14: "generators ... are consistent": MULTIPLICATIVE_GROUP_GENERATOR generates the whole multiplicative group (its order is not a proper divisor of
+// |E| - 1: g^((|E|-1)/r) != 1 for every prime r of a list of known prime factors), and POWER_OF_TWO_GENERATOR = g^((|E|-1) / 2^TWO_ADICITY) has order 2^TWO_ADICITY
+fn generator_battery<E: Field>(tag: &str, bad: &mut Vec<String>, cases: &mut usize) {
+    let n: BigUint = E::order() - BigUint::from(1u32);
+    let g = E::MULTIPLICATIVE_GROUP_GENERATOR;
+    *cases += 1;
+    if g.exp_biguint(&n) != E::ONE { bad.push(format!("{tag}: generator^(order - 1) != 1")); }
+    for r in [2u64, 3, 5, 7, 11, 13, 17, 19, 31, 41, 71, 179, 211, 257, 3541, 13201, 39971, 65537, 1018651, 1061341, 7361031152998637] {
+        let rb = BigUint::from(r);
+        if (&n % &rb) != BigUint::from(0u32) { continue; }
+        *cases += 1;
+        if g.exp_biguint(&(&n / &rb)) == E::ONE { bad.push(format!("{tag}: MULTIPLICATIVE_GROUP_GENERATOR is not a generator of the multiplicative group: generator^((|E|-1)/{r}) == 1")); }
+    }
+    *cases += 2;
+    let h = E::POWER_OF_TWO_GENERATOR;
+    if g.exp_biguint(&(&n >> E::TWO_ADICITY)) != h { bad.push(format!("{tag}: POWER_OF_TWO_GENERATOR != generator^((|E|-1) >> TWO_ADICITY)")); }
+    if h.exp_power_of_2(E::TWO_ADICITY) != E::ONE || h.exp_power_of_2(E::TWO_ADICITY - 1) == E::ONE { bad.push(format!("{tag}: POWER_OF_TWO_GENERATOR does not have order 2^TWO_ADICITY")); }
+}
+
+#[test]
+fn c14_generators() {
+    let mut bad = Vec::new();
+    let mut cases = 0usize;
+    generator_battery::<F>("Goldilocks", &mut bad, &mut cases);
+    generator_battery::<QuadraticExtension<F>>("quadratic extension", &mut bad, &mut cases);
+    generator_battery::<QuarticExtension<F>>("quartic extension", &mut bad, &mut cases);
+    generator_battery::<QuinticExtension<F>>("quintic extension", &mut bad, &mut cases);
+    finish("c14_generators", cases, bad);
+}
+
 fn naive_dft(c: &[F]) -> Vec<F> {
     let n = c.len();
     let g = F::primitive_root_of_unity(n.trailing_zeros() as usize);
@@ -277,6 +307,12 @@ fn c15_transforms() {
         }
         cases += 1;
         if ifft_with_options(PolynomialValues::new(want.clone()), None, Some(&table)).coeffs != coeffs { bad.push(format!("ifft with root table differs at size {n}")); }
+        // a root table made for a LARGER transform: either refused (panic) or the same values
+        if n >= 2 { for bigger in [2 * n, 8 * n] {
+            let big = fft_root_table::<F>(bigger);
+            cases += 1;
+            if let Ok(v) = std::panic::catch_unwind(std::panic::AssertUnwindSafe(|| fft_with_options(PolynomialCoeffs::new(coeffs.clone()), None, Some(&big)).values)) { if v != want { bad.push(format!("fft of size {n} with a root table for size {bigger} returns wrong values")); } }
+        } }
         for r in 1..=lg.min(4) {
             // inverse transform of a VALUE vector whose last (1 - 2^-r) fraction is zero: the zero-tail option must not change the result
             let mut v2 = want.clone(); for k in (n >> r)..n { v2[k] = F::ZERO; }
@@ -413,6 +449,28 @@ fn c15_polynomial_algebra() {
         let w = barycentric_weights(&pts);
         let x = rnd();
         if interpolate(&pts, x, &w) != pa.eval(x) { bad.push(format!("barycentric interpolate wrong for degree {d}")); }
+        // values with exact zeros in every position pattern (a coset on which the function vanishes at some points)
+        for mask in 0..(1u32 << d.min(6)) {
+            let ys: Vec<F> = (0..d).map(|i| if i < 6 && (mask >> i) & 1 == 1 { F::ZERO } else { F::from_canonical_u64(7 * i as u64 + 3) }).collect();
+            let pz: Vec<(F, F)> = (0..d).map(|i| (F::from_canonical_u64(i as u64 + 2), ys[i])).collect();
+            let wz = barycentric_weights(&pz);
+            let want = interpolant(&pz).eval(x);
+            // independent oracle: Lagrange formula
+            let lag = (0..d).fold(F::ZERO, |acc, i| { let mut t = ys[i]; for j in 0..d { if j != i { t *= (x - pz[j].0) * (pz[i].0 - pz[j].0).inverse(); } } acc + t });
+            cases += 1;
+            if interpolate(&pz, x, &wz) != lag || want != lag { bad.push(format!("interpolate / interpolant wrong for {d} points with zero values at mask {mask:#b}")); break; }
+        }
+        // the points of a two-adic subgroup, listed in natural, reversed and rotated order
+        if d.is_power_of_two() {
+            let lgd = d.trailing_zeros() as usize;
+            let g = F::primitive_root_of_unity(lgd);
+            for order in 0..3 {
+                let idx: Vec<usize> = match order { 0 => (0..d).collect(), 1 => (0..d).rev().collect(), _ => (0..d).map(|i| (i + 1) % d).collect() };
+                let ps: Vec<(F, F)> = idx.iter().map(|&i| { let xx = g.exp_u64(i as u64); (xx, pa.eval(xx)) }).collect();
+                cases += 1;
+                if trim(interpolant(&ps).coeffs) != trim(a.clone()) { bad.push(format!("interpolant over the subgroup of order {d} listed in order {order} does not recover the polynomial")); }
+            }
+        }
     }
     finish("c15_polynomial_algebra", cases, bad);
 }
@@ -506,6 +564,24 @@ fn c15_cosets_and_zero_poly() {
         'outer: for i in 0..num { if ks[i] == F::ZERO { bad.push(format!("get_unique_coset_shifts({size}, {num}): shift {i} is zero")); break; }
             for j in 0..i { if (ks[i] * ks[j].inverse()).exp_u64(size as u64) == F::ONE { bad.push(format!("get_unique_coset_shifts({size}, {num}): cosets {j} and {i} coincide")); break 'outer; } } }
     } }
+    // low-degree extension of the values of LOW-degree polynomials (every degree below the domain size, not only full-degree / random values)
+    for lg in 0..6usize {
+        let n = 1usize << lg;
+        for deg_plus_one in 0..=n {
+            let coeffs: Vec<F> = (0..n).map(|k| if k < deg_plus_one { F::from_canonical_u64(3 * k as u64 + 1 + seed()) } else { F::ZERO }).collect();
+            let p = PolynomialCoeffs::new(coeffs.clone());
+            let g0 = F::primitive_root_of_unity(lg);
+            let pv = PolynomialValues::new((0..n).map(|i| p.eval(g0.exp_u64(i as u64))).collect());
+            for rb in 0..4usize {
+                cases += 1;
+                let g = F::primitive_root_of_unity(lg + rb);
+                match std::panic::catch_unwind(std::panic::AssertUnwindSafe(|| pv.clone().lde(rb))) {
+                    Err(_) => bad.push(format!("PolynomialValues::lde({rb}) PANICKED for a degree-{} polynomial on {n} points", deg_plus_one as isize - 1)),
+                    Ok(l) => if l.values.len() != n << rb || (0..n << rb).any(|i| l.values[i] != p.eval(g.exp_u64(i as u64))) { bad.push(format!("PolynomialValues::lde({rb}) wrong for a degree-{} polynomial on {n} points", deg_plus_one as isize - 1)); },
+                }
+            }
+        }
+    }
     // value-form helpers
     let mut s = 0x1234_5678_9ABC_DEF0u64 ^ seed();
     let mut rnd = || { s ^= s << 13; s ^= s >> 7; s ^= s << 17; F::from_noncanonical_u64(s) };
